@@ -389,6 +389,23 @@ def run_shard(shard):
             plan = {str(i): ['raise', rng.choice(sorted(EXCS)), rng.choice(['entry', 'late'])],
                     str(j): ['raise', rng.choice(sorted(EXCS)), rng.choice(['entry', 'late'])]}
             _eval({'tree': tree, 'plan': plan, 'width': rng.choice(WIDTHS)}, acc)
+    elif what == 'many':
+        # many failures in ONE pformat call and long chains (sizes the single / pair enumeration never reaches: a cap on warnings,
+        # a counter, a depth threshold shows only here): a root with 11 children, and a chain 10 deep; 6, 8 or all nodes fail
+        rng = random.Random(shard['seed'])
+        wide = [[] for _ in range(11)]
+        chain = []
+        for _ in range(9):
+            chain = [chain]
+        for shape in (wide, chain):
+            n = size(shape)
+            for pattern in ('K', 'KP'):
+                for embed in EMBEDS:
+                    tree = make_tree(shape, pattern, [embed] * n, ['plain'] * n)
+                    for k in (6, 8, n - 1):
+                        idx = sorted(rng.sample(range(1, n), k))
+                        plan = {str(i): ['raise', rng.choice(sorted(EXCS)), rng.choice(['entry', 'late'])] for i in idx}
+                        _eval({'tree': tree, 'plan': plan, 'width': rng.choice(WIDTHS)}, acc)
     return acc
 
 
@@ -412,6 +429,7 @@ def shards_for(tier, seed):
                     continue
                 shards.append({'what': 'single', 'shape': shape, 'pattern': pattern, 'tier': tier,
                                'seed': seed * 1009 + n * 101 + si})
+    shards.append({'what': 'many', 'seed': seed * 7907 + 3})
     npairs, per = (16, 200) if tier == 'quick' else (64, 500)
     for i in range(npairs):
         shards.append({'what': 'pairs', 'seed': seed * 15485863 + i, 'count': per, 'max_nodes': max_n})
